@@ -104,8 +104,8 @@ class C12(VectorEngine):
         "under the open deviation numeq_relative_to_lhs the prediction is exact (|a-b| <= |a| * 2^-52 evaluated on exact decimal expansions) for numbers with the same unit",
     ]
     mc_runs = {
-        "quick": [("MC_Values", "MC_Values_q.cfg", {"workers": 6})],
-        "thorough": [("MC_Values", "MC_Values_q.cfg", {"workers": 6})],
+        "quick": [("MC_Values", "MC_Values_q.cfg", {"workers": 4})],
+        "thorough": [("MC_Values", "MC_Values_q.cfg", {"workers": 4})],
     }
     random_n = {"quick": 1200, "thorough": 40000}
 
